@@ -5,7 +5,7 @@ combination of the options that decide how the output is opened and filled, over
 output path can be in when the command starts, for every transport and several archive
 parameterisations - the full product, nothing sampled:
 
-  clone     {3 archives: fixed 4 B chunks with 64- and 16-byte hashes, content-defined + brotli with 12-byte hashes}
+  clone     {4 archives: fixed 4 B chunks with 64- and 16-byte hashes, content-defined + brotli with 12-byte hashes, an empty source}
           x {archive on a file, archive over HTTP}
           x {output absent, empty, equal to the source, same chunks reversed, a prefix, source + junk, unrelated junk}
           x every subset of {--force-create, --seed-output, --verify-output}
@@ -136,6 +136,8 @@ ARCHIVES = [
     ("fixed4-hl16", ["--fixed-size", "4B", "--compression", "none", "--hash-length", "16"], "words"),
     ("rollsum-brotli-hl12", ["--hash-chunking", "RollSum", "--rolling-window-size", "16B", "--min-chunk-size", "32B", "--avg-chunk-size", "64B",
                              "--max-chunk-size", "256B", "--compression", "brotli", "--compression-level", "4", "--hash-length", "12"], "pattern"),
+    # the archive of an empty source: no chunks at all (whatever shortcut that invites, the refusals stay)
+    ("empty-source", ["--fixed-size", "4B", "--compression", "none"], "empty"),
 ]
 STATES = ["absent", "empty", "equal", "reversed", "prefix", "longer", "junk"]
 FLAGS = ["-f", "--seed-output", "--verify-output"]
@@ -143,6 +145,8 @@ SEEDS = ["none", "file", "stdin", "output-itself"]
 
 
 def source_of(kind):
+    if kind == "empty":
+        return b""
     return words("ABCDABEF") if kind == "words" else pattern(3000, 7)
 
 
@@ -157,6 +161,9 @@ def reversed_chunks(kind, src):
 def state_bytes(state, kind, src):
     if state == "absent":
         return None
+    if kind == "empty":
+        # nothing of the (empty) source can be in the output: every non-absent state is other content
+        return {"empty": b"", "equal": b"", "reversed": b"old content", "prefix": b"x", "longer": b"#" * 37, "junk": bytes(range(30))}[state]
     return {"empty": b"", "equal": src, "reversed": reversed_chunks(kind, src), "prefix": src[:len(src) // 2 // 4 * 4],
             "longer": src + b"#" * 37, "junk": bytes((i * 7 + 3) % 251 for i in range(len(src)))}[state]
 
@@ -167,7 +174,9 @@ def clone_cells():
     for (ai, _), transport, state, k, seed in itertools.product(enumerate(ARCHIVES), ("file", "http"), STATES, range(1 << len(FLAGS)), SEEDS):
         flags = [f for i, f in enumerate(FLAGS) if k >> i & 1]
         cells.append({"cmd": "clone", "archive": ai, "transport": transport, "state": state, "flags": flags, "seed": seed,
-                      "verbose": "-vv" if n % 4 == 3 else ""})
+                      "verbose": "-vv" if n % 4 == 3 else "",
+                      # every (state, flag subset) meets both values across the seed kinds
+                      "retry": transport == "http" and (STATES.index(state) + k + SEEDS.index(seed)) % 2 == 1})
         n += 1
     return cells
 
@@ -196,6 +205,9 @@ def run_clone_cell(bita, root, idx, cell, arch_paths, server, viol):
         # the output path named as a seed: must not change whether the command refuses
         argv += ["--seed", "out.img"]
     target = server.url(f"{name}.cba", f"cell={idx:05d}") if cell["transport"] == "http" else arch_paths[cell["archive"]]
+    if cell["transport"] == "http" and cell.get("retry"):
+        # a retry budget (and the other transfer options) must not change what the command refuses or produces
+        argv += ["--http-retry-count", "2", "--http-retry-delay", "0", "--http-timeout", "30"]
     argv += [target, "out.img"]
     before = snapshot(d)
     r = sh(argv, d, stdin_data=stdin_data)
@@ -400,7 +412,7 @@ def leg(ctx):
 
 
 def replay(ctx, detail):
-    keys_clone = ("cmd", "archive", "transport", "state", "flags", "seed", "verbose")
+    keys_clone = ("cmd", "archive", "transport", "state", "flags", "seed", "verbose", "retry")
     keys_comp = ("cmd", "source", "input", "chunker", "compression", "state", "force", "verbose")
     keys = keys_clone if detail.get("cmd") == "clone" else keys_comp
     cell = {k: detail[k] for k in keys}
